@@ -301,15 +301,19 @@ class DiameterAssociation(object):
         stream = b""
         while not self._send_messages.empty() and \
                 len(stream) <= SEND_BUFFER_MAXIMUM_SIZE:
-            msg = self._send_messages.get()
+            #: Peeks at the head of the queue (producers hold self.lock too): 
+            #: a message that does not fit into this batch any more stays 
+            #: where it is and opens the next batch, in order.
+            msg = self._send_messages.queue[0]
             diameter_conn_logger.debug(f"[{msg.header.hop_by_hop.hex()}] "\
                                        f"Preparing message to be sent.")
 
             MESSAGE_LENGTH = len(msg.dump())
 
-            if MESSAGE_LENGTH > SEND_BUFFER_MAXIMUM_SIZE - len(stream):
-                self._send_messages.put(msg)
+            if stream and MESSAGE_LENGTH > SEND_BUFFER_MAXIMUM_SIZE - len(stream):
                 break
+
+            self._send_messages.get()
 
             if isinstance(msg, DiameterRequest):
                 key = msg.header.hop_by_hop.hex()
